@@ -23,7 +23,7 @@ pub fn prop() -> Prop {
 fn spec() -> Spec {
     Spec {
         kinds: vec![Kind { name: "filtered_ik", quick: 8_000, thorough: 400_000, serial: false }],
-        rule: "each case = synthetic cell (coarse box meshes, base and tool incl. rotation-only / translation-only / identity transforms, 1..3 obstacles placed on IK branches of the requested pose) built through KinematicsWithShape::new (both first_collision_only values) or ::with_safety (random safety table and mode) x pose x previous x the four inverse entry points; the answer must equal, element for element and bit for bit, the answer of an independently built Tool{Base{OPWKinematics::new_with_constraints}} stack with the elements for which the same robot's collides() is true removed; forward, link poses, constraints() and singularity reports must be the stack's; positioned_robot must carry mesh i at link pose i, the tool at pose 6 and the environment in order. non-trivial = 0 < #removed < #answers of the stack; distinct = hash(cell, pose, entry) Workload additions: the filter runs on pools of 1..5 workers or the global pool; half of the cells with limits narrower than a turn (odd answer counts); a tenth of the poses exactly on the reach limit, a tenth inside the wrist band (nine answers); NoCheck robots.",
+        rule: "each case = synthetic cell (coarse box meshes, base and tool incl. rotation-only / translation-only / identity transforms, 1..3 obstacles placed on IK branches of the requested pose) built through KinematicsWithShape::new (both first_collision_only values) or ::with_safety (random safety table and mode) x pose x previous x the four inverse entry points; the answer must equal, element for element and bit for bit, the answer of an independently built Tool{Base{OPWKinematics::new_with_constraints}} stack with the elements for which the same robot's collides() is true removed; forward, link poses, constraints() and singularity reports must be the stack's; positioned_robot must carry mesh i at link pose i, the tool at pose 6 and the environment in order. non-trivial = 0 < #removed < #answers of the stack; distinct = hash(cell, pose, entry) Workload additions: the filter runs on pools of 1..5 workers or the global pool; half of the cells with limits narrower than a turn (odd answer counts); a tenth of the poses exactly on the reach limit, a tenth inside the wrist band (nine answers); NoCheck robots. Rounds 7-9: sorting weights 0 / 1 / random; on half of the cells (and all cells with a designed base) every stack answer is also judged by the brute-force oracle with meshes placed by the reference chain; the same robot asked the same pose again with other previous vectors.",
         assumptions: vec!["collides() of the same robot is taken as the definition of 'reported colliding' (its agreement with geometry is C10's subject)"],
         minimums: vec![("oracle_evals", 50_000, 3_000_000), ("calls_with_partial_removal", 1_500, 90_000), ("order_sensitive_cases", 300, 18_000), ("pool.2", 2_000, 100_000)],
     }
@@ -261,6 +261,25 @@ fn run_case(_kind: &str, idx: u64, rng: &mut Rng, mon: &mut Mon, _tier: Tier) {
             mon.violation(&format!("filtered-ik:{}:{}", sig, e.name()), "answer is not the ordered non-colliding subset of the underlying stack's answer", detail("filtered", json!({"entry": e.name(), "prev": jf(&prev), "j6": j6, "collides_flags": flags, "stack": under.iter().map(|s| jf(s)).collect::<Vec<_>>(), "got": got.iter().map(|s| jf(s)).collect::<Vec<_>>()})));
         } else {
             mon.held_n(under.len().max(1) as u64);
+        }
+    }
+    // history: the SAME robot object is asked for the SAME pose again with other previous vectors (a planner probing
+    // one pose from several start postures); every answer list must again be the filtered list of the stack
+    for round in 0..2 {
+        let prev2 = if round == 0 { let mut p = q; for j in 0..6 { p[j] += rng.range(-3.0, 3.0); } p } else { joints_uniform(rng, 2.0 * std::f64::consts::PI) };
+        for e in [Entry::Continuing, Entry::Inverse] {
+            let under = match call(stack.as_ref(), e, &pose, &prev2, j6) { Ok(s) => s, Err(_) => continue };
+            let expected: Vec<[f64; 6]> = under.iter().filter(|s| !robot.collides(s)).cloned().collect();
+            let got = match call(&robot, e, &pose, &prev2, j6) { Ok(s) => s, Err(_) => continue };
+            mon.count("history.repeated_pose_queries");
+            let same = got.len() == expected.len() && got.iter().zip(expected.iter()).all(|(a, b)| (0..6).all(|j| a[j].to_bits() == b[j].to_bits()));
+            if !same {
+                let bad = got.iter().any(|g| robot.collides(g));
+                mon.violation(&format!("filtered-ik:history:{}:{}", if bad { "colliding-solution-returned" } else { "differs-from-stack" }, e.name()), "asked again for the same pose with another previous vector, the robot does not return the filtered list of the stack", detail("filtered-history", json!({"entry": e.name(), "prev": jf(&prev2), "round": round, "stack": under.iter().map(|s| jf(s)).collect::<Vec<_>>(), "got": got.iter().map(|s| jf(s)).collect::<Vec<_>>()})));
+                break;
+            } else {
+                mon.held();
+            }
         }
     }
     if idx < 2 {
